@@ -43,6 +43,11 @@ def load_known():
         line = line.strip()
         if not line.startswith('finding:'):
             continue
+        mn = re.match(r'^finding:\s+property=(\S+)\s+native=(\S+)\s+::\s+(.*)$', line)
+        if mn:
+            out.append({'property': mn.group(1), 'native': mn.group(2), 'obligation': None, 'when': None,
+                        'text': mn.group(3)})
+            continue
         m = re.match(r'^finding:\s+property=(\S+)\s+obligation=(\S+)\s+when=(.*?)\s+::\s+(.*)$', line)
         if not m:
             raise RuntimeError('malformed known_findings line: ' + line)
@@ -186,10 +191,6 @@ def finish(prop, tier, seed, results, known, wall, verbose):
         'wall_s': round(wall, 2),
         'violations': len(viol),
     }
-    os.makedirs(os.path.join(VERIF, 'evidence'), exist_ok=True)
-    if prop != 'ALL':
-        with open(os.path.join(VERIF, 'evidence', prop + '.json'), 'w') as f:
-            json.dump(ev, f, indent=1)
     code = 0
     seenk = set()
     for o in known_hits:
@@ -197,6 +198,24 @@ def finish(prop, tier, seed, results, known, wall, verbose):
             if kf['obligation'] == o['name'] and kf['property'] == prop and o['name'] not in seenk:
                 seenk.add(o['name'])
                 print('KNOWN-FINDING: property=%s %s [%s]' % (prop, kf['text'], o['name']))
+    # known findings demonstrated natively (properties whose violated clause has no decidable obligation): the
+    # recorded failing input is re-run against the real code on every check
+    for kf in known:
+        if kf.get('native') and kf['property'] == prop:
+            from engine import replay
+            try:
+                import contracts.replays as _rp
+                src = getattr(_rp, kf['native'])()
+                still, out = replay.run_native(src)
+            except Exception as e:
+                still, out = None, str(e)
+            if still:
+                print('KNOWN-FINDING: property=%s %s [native %s]' % (prop, kf['text'], kf['native']))
+            elif still is None:
+                print('NOTE: native demonstration %s could not be run: %s' % (kf['native'], out[:200]))
+            else:
+                print('NOTE: known finding %s no longer reproduces natively' % kf['native'])
+            ev['coverage'].setdefault('known_findings_native', []).append({'name': kf['native'], 'still_fails': bool(still)})
     if viol:
         code = 1
         from engine import replay
@@ -225,6 +244,10 @@ def finish(prop, tier, seed, results, known, wall, verbose):
         baseline[prop] = sorted(seen_names)
         with open(os.path.join(VERIF, 'contracts', 'baseline_obligations.json'), 'w') as f:
             json.dump(baseline, f, indent=0, sort_keys=True)
+    os.makedirs(os.path.join(VERIF, 'evidence'), exist_ok=True)
+    if prop != 'ALL':
+        with open(os.path.join(VERIF, 'evidence', prop + '.json'), 'w') as f:
+            json.dump(ev, f, indent=1)
     if verbose or code != 0:
         for f in funcs:
             print('  %-70s paths=%d obligations=%d %.1fs' % (f['contract'], f['paths'], f['obligations'], f['secs']))
